@@ -24,7 +24,7 @@ def dispatch (toks : List String) (impl : Option String) : Option (String × Str
     else if t == "utf.detect" || t == "utf.read" || t == "utf.write" then UtfStream.handle toks impl
     else if t.startsWith "utf." then Utf.handle toks impl
     else if t.startsWith "bs." then BinStream.handle toks impl
-    else if t == "mp.obj" then MpObj.handle toks impl
+    else if t == "mp.obj" || t == "mp.obj2" then MpObj.handle toks impl
     else if t == "mp.scope" || t == "mp.tuple" || t == "mp.keyeq" then Scope.handle toks impl
     else if t.startsWith "mp." then MsgPack.handle toks impl
     else if t.startsWith "num." then Num.handle toks impl
